@@ -108,16 +108,13 @@ def repairAll (st : State) (j i : Nat) (rf : Bool) : State × String :=
 /-- A write through the replicas the level selected: local handler, one request per replica
 (`Cluster.replicateAll`), `handle_consistency_distribution` (`Cluster.distribute`). -/
 def wbulk (st : State) (i : Nat) (targets : List Nat) (iss : Issued) (ts : Nat) : State × String :=
-  let (c1, okLocal) := applyAt st.c i 0 iss
-  let c1 := { c1 with ops := c1.ops ++ [(i, iss)] }
-  let k := c1.ops.length - 1
-  if !okLocal then ({ st with c := c1 }, s!"local op={k} ts={ts}")
-  else
-    let (c2, stuck, replies) := replicateAll c1 st.down st.hangNext st.stuck targets iss
-    ({ st with c := c2, stuck := stuck, hangNext := st.hangNext.filter (fun t => !stuck.contains t) },
-      match distribute replies with
-      | .ok _ => s!"ok op={k} ts={ts}"
-      | .error (acks, required) => s!"consistency {acks}/{required} op={k} ts={ts}")
+  let (c2, stuck, out) := write st.c st.down st.hangNext st.stuck i targets iss
+  let k := c2.ops.length - 1
+  ({ st with c := c2, stuck := stuck, hangNext := st.hangNext.filter (fun t => !stuck.contains t) },
+    match out with
+    | .localFailed => s!"local op={k} ts={ts}"
+    | .done (.ok _) => s!"ok op={k} ts={ts}"
+    | .done (.error (acks, required)) => s!"consistency {acks}/{required} op={k} ts={ts}")
 
 def showRepair (ks : String) : RepairOut → String
   | .skipped => "skipped"
